@@ -157,7 +157,7 @@ func (d *driver) validate(all []*result, progs map[string]*interp.Program, want 
 		if !same {
 			msg := fmt.Sprintf("%s %v: engine trace %v != native trace %v", name, r.res.Params, trimObs(engineObs), trimObs(nativeObs))
 			out.mismatches = append(out.mismatches, msg)
-			os.WriteFile(filepath.Join(d.verif, "evidence", "replays", fmt.Sprintf("%s_mismatch_%d.txt", d.prop, i)), []byte(msg+"\n\nnative output:\n"+trunc(txt, 8000)), 0o644)
+			os.WriteFile(filepath.Join(outDir, "replays", fmt.Sprintf("%s_mismatch_%d.txt", d.prop, i)), []byte(msg+"\n\nnative output:\n"+trunc(txt, 8000)), 0o644)
 		}
 		if len(out.samples) < 3 {
 			out.samples = append(out.samples, map[string]any{"harness": name, "params": r.res.Params, "trace_length": len(engineObs), "agree": same, "first_events": trimObs(engineObs)})
